@@ -278,3 +278,44 @@ Theorem C03_untyped_float_boundary_refuted :
       /\ g_run (one_const true None (EBin BLt (EFloat (3 # 2)) (EInt 2))) = Printed [(TBool, OB true)]).
 Proof. exact float_boundary_refuted. Qed.
 Print Assumptions C03_untyped_float_boundary_refuted.
+
+(** Constants of the enlarged fragment meeting a typed numeric destination (every integer type,
+    float32, float64) through typecheck.assignment -> convertUntyped -> representableConst +
+    convertConst (const c T = k, var v T = k, an untyped operand unified with a typed one).
+    For all trees e of numeric kind and all numeric types t: after one visit of e, the assignment
+    yields exactly the typed value of the specification — an integer destination accepts the
+    value only when it is an integer ("constant truncated" otherwise) inside the range of t
+    (overflow rejected), a floating-point destination gets the exact rational rounded once to
+    nearest even in the format of t ([round_t] of Const/Base.v) or rejects an overflow — outside
+    the regions signed-bitlen (t is int8, int16 or int32) and float-negzero (a non-zero constant
+    that rounds to zero): [dest_ok]. *)
+Theorem C03_typed_dest_float_partial :
+  forall e k iota t, frf e = Some k -> numk k = true -> is_number t = true -> dest_ok iota e t = true ->
+    y_eval_assign iota e t = g_eval_assign iota e t.
+Proof. exact typed_dest_agree. Qed.
+Print Assumptions C03_typed_dest_float_partial.
+
+Example C03_typed_dest_float_inhabited :
+  (dest_ok 0 (EBin BMul (EFloat (5 # 2)) (EInt 4)) TUint8 = true
+   /\ g_eval_assign 0 (EBin BMul (EFloat (5 # 2)) (EInt 4)) TUint8 = Ok (typed TUint8, Some (VM TUint8 (MI 10))))
+  /\ g_eval_assign 0 (EBin BAdd (EFloat (3 # 2)) (EBin BQuo (EInt 3) (EInt 2))) TInt64 = Err
+  /\ g_eval_assign 0 (EFloat (1000 # 1)) TUint8 = Err
+  /\ (dest_ok 0 (EBin BAdd (EFloat (16777217 # 16777216)) (EFloat (1 # 1152921504606846976))) TFloat32 = true
+      /\ g_eval_assign 0 (EBin BAdd (EFloat (16777217 # 16777216)) (EFloat (1 # 1152921504606846976))) TFloat32
+         = Ok (typed TFloat32, Some (VM TFloat32 (MF (FQ (8388609 # 8388608))))))
+  /\ g_eval_assign 0 (EBin BMul (EFloat (1000000000000000000000 # 1)) (EFloat (1000000000000000000 # 1))) TFloat32 = Err.
+Proof. exact typed_dest_inhabited. Qed.
+Print Assumptions C03_typed_dest_float_inhabited.
+
+(** the side conditions are the regions: int8(200.0)-like destinations take -56, a negative constant
+    below the float64 denormals becomes -0 *)
+Theorem C03_typed_dest_float_refuted :
+  (frf (EFloat (200 # 1)) = Some UFloat /\ dest_ok 0 (EFloat (200 # 1)) TInt8 = false
+   /\ y_eval_assign 0 (EFloat (200 # 1)) TInt8 = Ok (typed TInt8, Some (VM TInt8 (MI (-56))))
+   /\ g_eval_assign 0 (EFloat (200 # 1)) TInt8 = Err)
+  /\ (frf (EUn UNeg (EFloat (1 # Pos.pow 2 1100))) = Some UFloat
+      /\ dest_ok 0 (EUn UNeg (EFloat (1 # Pos.pow 2 1100))) TFloat64 = false
+      /\ y_eval_assign 0 (EUn UNeg (EFloat (1 # Pos.pow 2 1100))) TFloat64 = Ok (typed TFloat64, Some (VM TFloat64 (MF FNZ)))
+      /\ g_eval_assign 0 (EUn UNeg (EFloat (1 # Pos.pow 2 1100))) TFloat64 = Ok (typed TFloat64, Some (VM TFloat64 (MF (FQ (0 # 1)))))).
+Proof. exact typed_dest_refuted. Qed.
+Print Assumptions C03_typed_dest_float_refuted.
